@@ -158,6 +158,16 @@ func init() {
 						if !ok {
 							return true
 						}
+						// the generator handed to another function draws there: a draw site as well
+						for _, a := range c.Args {
+							if id, ok := a.(*ast.Ident); ok && rngNames[id.Name] {
+								if id.Obj == nil {
+									draws = append(draws, c.Pos())
+								} else if vs, isVS := id.Obj.Decl.(*ast.ValueSpec); isVS && vs != nil && id.Obj.Kind == ast.Var {
+									draws = append(draws, c.Pos())
+								}
+							}
+						}
 						sel, ok := c.Fun.(*ast.SelectorExpr)
 						if !ok {
 							return true
